@@ -76,6 +76,7 @@ var (
 	errReadBadRequest           = errors.New("ntske received bad request error message")
 	errReadUnrecognisedCritical = errors.New("ntske received unrecognized critical error message")
 	errReadUnknown              = errors.New("ntske received unknown error message")
+	errUnexpectedBodyLen        = errors.New("ntske received record with unexpected body length")
 )
 
 // RecordHdr is the header on all records exchanged in NTS-KE.
@@ -320,19 +321,32 @@ func ReadData(ctx context.Context, log *slog.Logger, reader *bufio.Reader, data 
 			return nil
 
 		case RecNextproto:
-			var nextProto uint16
-			err := binary.Read(reader, binary.BigEndian, &nextProto)
+			if msg.BodyLen < 2 || msg.BodyLen%2 != 0 {
+				return errUnexpectedBodyLen
+			}
+			nextProtos := make([]uint16, msg.BodyLen/2)
+			err := binary.Read(reader, binary.BigEndian, &nextProtos)
 			if err != nil {
 				return err
 			}
 
 		case RecAead:
-			var aead uint16
-			err := binary.Read(reader, binary.BigEndian, &aead)
+			if msg.BodyLen < 2 || msg.BodyLen%2 != 0 {
+				return errUnexpectedBodyLen
+			}
+			aeads := make([]uint16, msg.BodyLen/2)
+			err := binary.Read(reader, binary.BigEndian, &aeads)
 			if err != nil {
 				return err
 			}
-			data.Algo = aead
+			// a client offers a list in order of preference
+			data.Algo = aeads[0]
+			for _, aead := range aeads {
+				if aead == AES_SIV_CMAC_256 {
+					data.Algo = aead
+					break
+				}
+			}
 
 		case RecCookie:
 			cookie := make([]byte, msg.BodyLen)
@@ -352,12 +366,18 @@ func ReadData(ctx context.Context, log *slog.Logger, reader *bufio.Reader, data 
 			data.Server = string(address)
 
 		case RecPort:
+			if msg.BodyLen != 2 {
+				return errUnexpectedBodyLen
+			}
 			err := binary.Read(reader, binary.BigEndian, &data.Port)
 			if err != nil {
 				return err
 			}
 
 		case RecError:
+			if msg.BodyLen != 2 {
+				return errUnexpectedBodyLen
+			}
 			var code uint16
 			err := binary.Read(reader, binary.BigEndian, &code)
 			if err != nil {
